@@ -1,6 +1,7 @@
 import RockitModel.Model.History
 import Mathlib.Tactic.Basic
 import Mathlib.Logic.Basic
+import RockitModel.Generated.Reads
 /-!
 # C13 — the transcription depends only on the final specification, not on its history
 -/
@@ -98,5 +99,13 @@ example : nlpSeenByNextSolve (hrun
     [ { info := { cls := "Ocp", name := "solve", clears := false, live := false, query := true, writes := [], storesAlways := [] }, f := id },
       { info := { cls := "Stage", name := "set_T", clears := true, live := false, query := false, writes := ["_T"], storesAlways := ["_T"] }, f := fun _ => 5 } ]
     { spec := 2, transcribed := false, cache := 2 }) = (5 : Nat) := by decide
+
+
+/-- the transcribed flag is written exactly where it is read (on the master of the stage tree), so an
+invalidating call made through ANY stage object of a tree is seen by the next solve (regenerated from
+`Stage._set_transcribed` / `Stage._is_transcribed`) -/
+theorem flag_written_where_read :
+    Rockit.Generated.flagWrittenTo = Rockit.Generated.flagReadFrom ∧ Rockit.Generated.flagWrittenTo = ["self.master._var_is_transcribed"] := by
+  decide
 
 end Rockit.C13
